@@ -9,19 +9,19 @@ def hook_commits():
     return [l.split()[0] for l in out.splitlines() if "verif hook" in l]
 
 CLAIMED = {
-    "C06": dict(engine="chan-inline", design="5/C06",
+    "C06": dict(engine="chan-inline + chan-threads", design="5/C06",
         technique="deterministic simulation: seeded interleaving of sender operations with the real Receiver::exec under a scripted, fault-injecting processor; reference-queue oracle plus history checks",
         text="Seeded exploration (not exhaustive) of interleavings x processor outcome sequences of the real emit_batcher channel on a virtual clock. Every first-attempt batch must equal the reference queue's hand-off, every retry must equal the returned remainder, and the whole history is re-checked for exactly-once / FIFO / accounted truncation. Exploration is the right level: the property is over schedules and fault sequences, which only sampling at this scale (10^5..10^7 runs) reaches with the real code.",
         note="Trusted: the reference queue model, the reduction argument that receiver-local steps commute with sender critical sections (so interleaving at lock hooks and processor/wait/watcher seams is complete for inline mode), the hook placement (one before_lock per acquisition of the channel state lock)."),
-    "C07": dict(engine="chan-inline", design="5/C07",
+    "C07": dict(engine="chan-inline + chan-threads", design="5/C07",
         technique="deterministic simulation with fault injection; history check at the instant each flush reports completion",
         text="Seeded exploration of flush requests (when_flushed, async flush) racing with hand-off, retries, failures, panics and truncation; a post-hoc check over the recorded history demands that at the completion event of every flush no item sent before the request is queued, in flight or awaiting retry.",
         note="Trusted: event sequence numbers are assigned by the single simulator thread; flushes completing at or after an injected receiver teardown carry no obligation (statement: while the receiver is alive)."),
-    "C08": dict(engine="chan-inline", design="5/C08",
+    "C08": dict(engine="chan-inline + chan-threads + calling-contexts", design="5/C08",
         technique="deterministic simulation with fault injection; bounded-liveness and exactly-once-callback oracles on a virtual clock",
         text="Seeded exploration of processor outcome scripts (ok, permanent failure, retry with any remainder, panic in call or future, latency), panicking watchers, early sender drop; oracles: bounded attempts, non-decreasing bounded back-off reset per batch, callbacks exactly once, receiver drains and terminates within a step budget once the sender is dropped.",
         note="Trusted: step budget (2500 controller steps after close) is generous relative to the retry budget; retuned constants do not alarm (bounds are 64 attempts / 5 min)."),
-    "C09": dict(engine="chan-inline", design="5/C09",
+    "C09": dict(engine="chan-inline + chan-threads", design="5/C09",
         technique="deterministic simulation; reference-queue oracle compared with a state snapshot after every operation; lock-held-at-seam detector",
         text="Seeded exploration with small capacities, stalled / absent receivers and all send variants; after every operation the real queue length (snapshot hook and queue_length metric) must equal the reference queue and never exceed capacity; overflow keeps the newest item and counts once; try_send / async send hand the same item back, and only at or after expiry.",
         note="Trusted: verif_snapshot() reads the same fields the channel uses; virtual-time expiry comparisons are exact."),
@@ -65,6 +65,17 @@ CLAIMED.update({
         technique="deterministic simulation under miri's seeded scheduler: racing initialisers and observers over a fresh AmbientSlot, one miri seed = one exact schedule, with weak-memory emulation and data-race detection",
         text="A small program races 2-4 initialisers (try_init_slot, and one init_slot under catch_unwind) with 1-3 observers that read the five components, emit an event and open a span through slot.get() and flush, each component of configuration i tagged i. Run under cargo miri with many seeds x several preemption rates x workload shapes from VERIF_SEED; miri interprets the real OnceLock and the unsafe cast in AmbientSlot::get and preempts at basic-block granularity. Oracle: exactly one attempt wins, losers fail in their documented way and never receive an event or a filter call, nothing is observed before initialisation, once any thread has seen the slot enabled every later observation on every thread shows all five components of the winner together, no data race or UB.",
         note="Trusted: miri's scheduler/weak-memory model as a stand-in for OS schedules; leak check off because the slot is leaked for 'static; -Zmiri-many-seeds aborts remaining seeds at the first failure."),
+})
+
+CLAIMED.update({
+    "C12": dict(engine="otlp-delivery", design="5/C12",
+        technique="deterministic simulation with fault injection: the real Otlp emitter (hyper, h2, gzip) over in-memory streams against a scripted collector on a simulated executor and virtual clock; collector-side history oracle",
+        text="Seeded exploration of event streams (incl. 100-300 KiB payloads so a batch spans several size-limited requests), transports (HTTP/JSON, HTTP/protobuf, gRPC; gzip on/off), signal subsets on distinct simulated hosts, and per-request collector behaviour (ack, slow ack, 4xx/5xx or non-zero grpc-status, close before / after reading, reset mid-body, stall until the 30 s client timeout, refused connections, one host down forever), with the client thread (emit, blocking_flush, drop) interleaved with the worker by the baton scheduler. The collector log decides: every emitted event in an acknowledged request once a flush returned true or the emitter was dropped and its worker terminated; exactly one request when nothing failed; a failed request is followed by the same events, not before the back-off, on a new connection if the transport broke; an outage of one signal does not delay the others.",
+        note="Trusted: the scripted collector and marker extraction (markers survive both encodings verbatim); faults stop inside the retry budget (at most 6 consecutive failures per signal); timers only fire when nothing is runnable (no artificial starvation of the worker against the 30 s request timeout). TLS and real sockets are not exercised."),
+    "C14": dict(engine="otlp-routing", design="5/C14",
+        technique="deterministic simulation: observation at the collector endpoints after worker, transport and retries, over all eight signal subsets incl. outage configurations; event shapes by seeded generation against a reference routing function",
+        text="Events over kind {none, span, metric, unknown} x extent {none, point, range} x metric value {number, numeric sequence, text, missing} through all eight subsets of configured signals, fault-free and with collector faults / a dead host. Each marker must only ever appear at the endpoint a 10-line reference routing function names, and event_discarded must equal the number of unroutable events. The event-shape dimension is ordinary seeded generation; simulation contributes the observation point (what the collector endpoints actually receive, including retried requests) and the outage configurations.",
+        note="Trusted: the reference routing function; the caveat in DESIGN.md section 5/C14 (the routing choice itself is schedule-independent)."),
 })
 
 PENDING = {
@@ -129,6 +140,14 @@ def main():
              "kind_free_text": "generated span trees over the emit_traceparent runtime pieces with scripted sampler and incoming headers"},
             {"name": "slot-miri", "path": "/verif/slot/src/main.rs", "serves_properties": ["C20"],
              "kind_free_text": "tagged racing initialisers/observers over AmbientSlot run under cargo miri (seeded scheduler, many seeds x preemption rates), driven by tools/c20.py"},
+            {"name": "chan-threads", "path": "/verif/sim/src/chan_threads.rs", "serves_properties": ["C06", "C07", "C08", "C09"],
+             "kind_free_text": "real sync.rs entry points on real OS threads under a baton-passing scheduler with virtual time, spurious wake-ups and early timers"},
+            {"name": "calling-contexts", "path": "/verif/sim/src/ctx_probes.rs", "serves_properties": ["C08"],
+             "kind_free_text": "deterministic probes of the blocking entry points' immediate paths from plain / tokio current-thread / multi-thread / spawn_blocking contexts"},
+            {"name": "otlp-delivery", "path": "/verif/sim/src/otlp_sim.rs", "serves_properties": ["C12"],
+             "kind_free_text": "real Otlp emitter over SimStream pipes against a scripted HTTP/1.1 + h2 collector on a simulated executor"},
+            {"name": "otlp-routing", "path": "/verif/sim/src/otlp_sim.rs", "serves_properties": ["C14"],
+             "kind_free_text": "same engine, event-shape x signal-subset workload with routing oracle"},
             {"name": "fsim-faults", "path": "/verif/sim/src/fsim.rs", "serves_properties": ["C10"],
              "kind_free_text": "real emit_file worker over a fault-injecting in-memory filesystem (written vs synced, durable vs volatile entries); single-fault enumeration per generated history + sampled multi-fault sequences"},
             {"name": "fsim-rolling", "path": "/verif/sim/src/fsim.rs", "serves_properties": ["C11"],
